@@ -244,6 +244,24 @@ class C02:
                 continue  # wired by a base class that has its own table row: checked there
             leaf = self.ao.leaves[w.cls.qual]
             file, func = w.owner.module.relpath, f"{w.owner.name}.__init__"
+            # an adapter handed in by the caller takes the place of the one built here: it must be the parameter meant for THIS
+            # attribute (its annotation names the class that would be constructed; without one, its name is the attribute's)
+            if w.param is not None:
+                import ast as _ast
+                init = w.owner.methods["__init__"][-1]
+                a_ = next((x for x in list(init.args.args) + list(init.args.kwonlyargs) if x.arg == w.param), None)
+                anntext = _ast.unparse(a_.annotation) if a_ is not None and a_.annotation is not None else ""
+                names = {n_ for n_ in __import__("re").findall(r"[A-Za-z_][A-Za-z0-9_]*", anntext)} - {"Optional", "Union", "None", "typing"}
+                if names:
+                    fits = w.cls.name in names or any(b.name in names for b in w.cls.mro())
+                else:
+                    fits = w.param == attr or w.param.strip("_") == attr.strip("_")
+                if fits:
+                    ctx.ok("R02.3", f"{file}:{w.node.lineno} {func}", f"self.{attr}: the injected adapter is the parameter `{w.param}` ({anntext or 'same name'})")
+                else:
+                    ctx.bad("R02.3", file, func, f"self.{attr} = {w.param} or {w.cls.name}(...)",
+                            f"self.{attr} takes the caller's `{w.param}` ({anntext or 'unannotated'}) where a {w.cls.name} is built otherwise: an injected "
+                            f"adapter of another kind converts these objects, and the one meant for this attribute is ignored", w.node.lineno)
             params = leaf.init_params
             bound: List[Tuple[str, tuple]] = []
             for i, a in enumerate(w.args):
